@@ -360,6 +360,25 @@ fn seqs_space(depth: u32) -> Space {
     Space::new("seqs", n, move |idx, l| total_case(&build(idx), l, "c"), move |idx| json!({"class": "seqs", "lines": seq_unrank(idx, k, depth), "input": show(&build(idx))})).sandboxed(sb(2048))
 }
 
+// (c2) sequences of records at the very top of the address space (address + size = 2^64, 2^64 - 1, past it)
+const TOP_KINDS: &[&[u8]] = &[
+    b"FUNC fffffffffffffff0 10 0 a\n", b"FUNC ffffffffffffffef 10 0 b\n", b"FUNC ffffffffffffffff 1 0 c\n", b"FUNC 0 ffffffffffffffff 0 d\n", b"fffffffffffffff0 10 7 1\n",
+    b"STACK CFI INIT fffffffffffffff0 10 .cfa: $esp 4 + .ra: .cfa 4 - ^\n", b"STACK CFI INIT ffffffffffffffef 10 .cfa: $esp 4 + .ra: .cfa 4 - ^\n", b"STACK CFI ffffffffffffffff .cfa: $esp 8 +\n",
+    b"STACK WIN 4 fffffff0 10 0 0 0 0 0 0 1 $eip 4 + ^ =\n", b"STACK WIN 4 ffffffff 1 0 0 0 0 0 0 1 $eip 4 + ^ =\n", b"PUBLIC ffffffffffffffff 0 p\n", b"FUNC fffffffffffffff0 f 0 e\n",
+];
+fn top_seqs_space(depth: u32) -> Space {
+    let k = TOP_KINDS.len() as u64;
+    let n = seq_count(k, depth);
+    let build = move |idx: u64| -> Vec<u8> {
+        let mut v = b"MODULE Linux x86 abcd m\n".to_vec();
+        for i in seq_unrank(idx, k, depth) {
+            v.extend_from_slice(TOP_KINDS[i as usize]);
+        }
+        v
+    };
+    Space::new("top-of-address-space-seqs", n, move |idx, l| total_case(&build(idx), l, "c2"), move |idx| json!({"class": "top-seqs", "lines": seq_unrank(idx, k, depth), "input": show(&build(idx))})).sandboxed(sb(2048))
+}
+
 // ---------------------------------------------------------------------------------------------
 // byte corruption of a valid file
 
@@ -581,7 +600,7 @@ fn main() {
         let mut def = CheckDef::new(
             "C09",
             "fault_enumeration",
-            "every case = one byte string parsed by the real SymbolFile::parse through a counting reader/callback (window oracle at every read) and by from_bytes, under panic guard / wall budget / allocation cap. Spaces: all strings of length <= 3 alone and after MODULE; 15 record templates x {0,1,2} fields replaced from a 16-token boundary menu x 4 terminators; all sequences of <= depth lines over 33 record shapes; every single-byte replacement and deletion of a valid 19-line file; real-constant long lines (content lengths around 10/20/40/80/160 KiB and over MAX — listed under long_line_content_lengths — x 6 kinds x 4 prefixes x 5 suffixes x LF/CRLF x 3 (thorough: 6) read chunkings) with the dropped-line equality oracle. distinct_nontrivial = distinct (part, outcome + table shape or error text) keys.",
+            "every case = one byte string parsed by the real SymbolFile::parse through a counting reader/callback (window oracle at every read) and by from_bytes, under panic guard / wall budget / allocation cap. Spaces: all strings of length <= 3 alone and after MODULE; 15 record templates x {0,1,2} fields replaced from a 16-token boundary menu x 4 terminators; all sequences of <= depth lines over 33 record shapes; all sequences of <= 4 lines over 12 record shapes at the very top of the address space (address + size = 2^64, 2^64 - 1, past it); every single-byte replacement and deletion of a valid 19-line file; real-constant long lines (content lengths around 10/20/40/80/160 KiB and over MAX — listed under long_line_content_lengths — x 6 kinds x 4 prefixes x 5 suffixes x LF/CRLF x 3 (thorough: 6) read chunkings) with the dropped-line equality oracle. distinct_nontrivial = distinct (part, outcome + table shape or error text) keys.",
         );
         def.assumptions = vec![
             "C09 only requires 'returns Ok or Err' for input without a final newline: outcomes are not compared across read chunkings (that is C10 / F8)".into(),
@@ -597,7 +616,7 @@ fn main() {
         def.extra.insert("long_line_content_lengths".into(), json!(lengths(ctx.tier == Tier::Thorough)));
         def.extra.insert("wall_budget_ms".into(), json!(WALL_MS));
         def.extra.insert("hard_cap_bytes".into(), json!(HARD_CAP));
-        def.spaces = vec![longline_space(ctx.tier == Tier::Thorough), fields_space(), seqs_space(depth), corrupt_space(), bytes3_space()];
+        def.spaces = vec![longline_space(ctx.tier == Tier::Thorough), fields_space(), seqs_space(depth), top_seqs_space(4), corrupt_space(), bytes3_space()];
         // ---- part (d): growth / discard-to-newline recovery driven exhaustively in the scaled build
         // (cfg rust_minidump_verif_smallbuf, INITIAL 16 / MAX 256), in a child process
         let tier_name = ctx.tier.name();
